@@ -1,5 +1,6 @@
 """C10 - Over successive ceremonies accepted SKRs form one unbroken, authentic timeline."""
 import argparse
+import re
 import base64
 import contextlib
 import copy
@@ -248,8 +249,19 @@ def run_transition(state, schema_name, variant, model=True):
         ksr = quarter(T0 + D(days=30), 0, f"ksr-{seq}")
         prev_path = None
     else:
-        ksr = ksr_for(state, variant, seq)
+        tampered = variant.startswith("previous-file-")
+        ksr = ksr_for(state, "honest" if tampered else variant, seq)
         prev_path = state["path"]
+        if tampered:
+            # the file handed in as previous SKR is the emitted one with one signature octet changed (first / middle / last signature of the file)
+            raw = open(state["path"], encoding="utf-8").read()
+            spans = [m.span(1) for m in re.finditer(r"<SignatureData>([^<]*)</SignatureData>", raw)]
+            a, b = spans[{"first": 0, "middle": len(spans) // 2, "last": -1}[variant.rsplit("-", 1)[1]]]
+            sig = bytearray(base64.b64decode(raw[a:b]))
+            sig[len(sig) // 2] ^= 0x10
+            prev_path = str(d / "previous-tampered.xml")
+            with open(prev_path, "w", encoding="utf-8") as f:
+                f.write(raw[:a] + base64.b64encode(bytes(sig)).decode() + raw[b:])
     ksr_path, out_path = str(d / "ksr.xml"), str(d / "out.xml")
     with open(ksr_path, "w") as f:
         f.write(ksrxml.render_ksr(ksr))
@@ -284,6 +296,8 @@ def run_transition(state, schema_name, variant, model=True):
             want, reason = False, "chain rules"
         elif not safety_spec(state["skr"], expected_new, state["skr"]["ksk"] if False else {"publish_safety": D(days=10), "retire_safety": D(days=10)}):
             want, reason = False, "publish/retire safety"
+    if state is not None and variant.startswith("previous-file-"):
+        want, reason = False, "the previous SKR handed in is not the authentic one (a signature in it does not verify)"
     probs = []
     if accepted != want:
         probs.append(f"ceremony {'accepted' if accepted else 'refused (' + str(r[2] if r[0] == 'exc' else r[1]) + ')'} but the documented rules applied to the actual previous "
@@ -377,6 +391,10 @@ while frontier and level < DEPTH:
         if key not in seen:
             seen.add(key)
             keep.append(s_)
+    # authenticity of the whole previous file, not just of its first bundle
+    for st in (frontier[:2] if not THOROUGH else frontier[:6]):
+        for which in ("first", "middle", "last"):
+            run_transition(st, st["trail"][-1] if st["trail"][-1] in SCHEMAS else "normal", f"previous-file-signature-changed-{which}", model=False)
     frontier = keep if THOROUGH else keep[:8]
     level += 1
     count(f"level-{level}-states", len(frontier))
